@@ -333,6 +333,50 @@ def run(tier="quick", seed=0, pid=None):
             continue
         if got != want:
             fail("C20", "handler_at_every_depth", {"value": label(val)}, "dump gave %r, expected %r" % (got, want))
+    # a bean field whose value is of a type that only a handler knows (not one of the built-in supported types)
+    import datetime
+
+    class Opaque(object):
+        def __init__(self, v):
+            self.v = v
+    Opaque.__module__ = MOD
+
+    def h_date(obj, sm, ia, ign, cfg_):
+        return {"date!": obj.isoformat()}
+
+    def h_opaque(obj, sm, ia, ign, cfg_):
+        return ["opaque!", obj.v]
+    cfg3 = C.Config(serialize_handlers={datetime.date: h_date, Opaque: h_opaque})
+    for where in ("field", "field-list", "field-dict", "nested-bean-list"):
+        n += 1
+        hb = m.Holder()
+        d0, o0 = datetime.date(2020, 2, 29), Opaque(5)
+        if where == "field":
+            hb.items, hb.table = d0, o0
+            want_items, want_table = {"date!": "2020-02-29"}, ["opaque!", 5]
+        elif where == "field-list":
+            hb.items, hb.table = [d0, o0], {}
+            want_items, want_table = [{"date!": "2020-02-29"}, ["opaque!", 5]], {}
+        elif where == "field-dict":
+            hb.items, hb.table = [], {"d": d0, "o": o0}
+            want_items, want_table = [], {"d": {"date!": "2020-02-29"}, "o": ["opaque!", 5]}
+        else:
+            inner = m.Holder()
+            inner.items, inner.table = d0, o0
+            hb.items, hb.table = [inner], {}
+            want_items, want_table = None, {}
+        try:
+            got = JC.dump(hb, config=cfg3)
+        except Exception as e:     # noqa
+            fail("C20", "handler_at_every_depth", {"value": "Holder with handler-only typed values: " + where}, "%s: %s" % (type(e).__name__, e))
+            continue
+        if where == "nested-bean-list":
+            inner_d = (got.get("items") or [{}])[0]
+            ok = inner_d.get("items") == {"date!": "2020-02-29"} and inner_d.get("table") == ["opaque!", 5]
+        else:
+            ok = got.get("items") == want_items and got.get("table") == want_table
+        if not ok:
+            fail("C20", "handler_at_every_depth", {"value": "Holder with handler-only typed values: " + where}, "dump gave %r" % (got,))
     h = m.Holder()
     h.items = [(9,)]
     h.table = {"t": (8,)}
